@@ -53,6 +53,10 @@ struct Scenario {
     threads: usize,
     /// conflict-free: the result does not depend on the schedule and must reproduce the index
     simple: bool,
+    /// `Some(delay allowed)`: the index has .gitattributes (eol conversion, the long-running `arrow` filter process)
+    filter: Option<bool>,
+    /// paths whose blob is NOT in the object database
+    missing: Vec<Vec<u8>>,
 }
 
 #[derive(Clone)]
@@ -165,6 +169,25 @@ fn run(root: &Path, sc: &Scenario) -> RunOut {
     let dest = root.join("w/dest");
     std::fs::create_dir_all(&dest).unwrap();
     std::fs::write(root.join("w/side"), b"s").unwrap();
+    // the process works from a canary directory holding files named like the index entries
+    let cwd = root.join("cwd");
+    std::fs::create_dir_all(&cwd).unwrap();
+    for e in &sc.entries {
+        let comps: Vec<&[u8]> = e.path.split(|b| *b == b'/').collect();
+        if e.path.is_empty() || e.path.contains(&0) || comps.iter().any(|c| c.is_empty() || *c == b"." || *c == b"..") {
+            continue;
+        }
+        let full = cwd.join(p(&e.path));
+        if let Some(parent) = full.parent() {
+            if std::fs::create_dir_all(parent).is_err() {
+                continue;
+            }
+        }
+        if std::fs::symlink_metadata(&full).is_err() && std::fs::write(&full, b"cwd").is_ok() {
+            let _ = std::fs::set_permissions(&full, std::fs::Permissions::from_mode(0o644));
+        }
+    }
+    std::env::set_current_dir(&cwd).unwrap();
     for (path, pre) in &sc.pre {
         let full = dest.join(p(path));
         match pre {
@@ -181,7 +204,9 @@ fn run(root: &Path, sc: &Scenario) -> RunOut {
     for e in &sc.entries {
         let data = if e.kind == Kind::Link { real_target(root, &e.data) } else { e.data.clone() };
         let id = gix_object::compute_hash(gix_hash::Kind::Sha1, gix_object::Kind::Blob, &data);
-        objs.insert(id, data);
+        if !sc.missing.contains(&e.path) {
+            objs.insert(id, data);
+        }
         let mode = match e.kind {
             Kind::File => gix_index::entry::Mode::FILE,
             Kind::Exec => gix_index::entry::Mode::FILE_EXECUTABLE,
@@ -192,7 +217,7 @@ fn run(root: &Path, sc: &Scenario) -> RunOut {
     }
     state.sort_entries();
     let canary_before: Snap = snapshot(root, root, true).into_iter().filter(|(k, _)| is_canary(k)).collect();
-    let opts = gix_worktree_state::checkout::Options {
+    let mut opts = gix_worktree_state::checkout::Options {
         fs: gix_fs::Capabilities {
             precompose_unicode: false,
             ignore_case: false,
@@ -205,6 +230,20 @@ fn run(root: &Path, sc: &Scenario) -> RunOut {
         keep_going: true,
         ..Default::default()
     };
+    if let Some(delay) = sc.filter {
+        opts.filter_process_delay = if delay {
+            gix_filter::driver::apply::Delay::Allow
+        } else {
+            gix_filter::driver::apply::Delay::Forbid
+        };
+        opts.filters.options_mut().drivers = vec![gix_filter::Driver {
+            name: "arrow".into(),
+            clean: None,
+            smudge: None,
+            process: Some(format!("{} process", arrow_exe()).into()),
+            required: true,
+        }];
+    }
     let res = gix_worktree_state::checkout(
         &mut state,
         dest.clone(),
@@ -242,6 +281,16 @@ fn run(root: &Path, sc: &Scenario) -> RunOut {
     }
 }
 
+fn arrow_exe() -> String {
+    std::env::current_exe()
+        .expect("current exe")
+        .parent()
+        .expect("bin dir")
+        .join("c41-arrow")
+        .to_string_lossy()
+        .into_owned()
+}
+
 fn kind_char(k: Kind) -> char {
     match k {
         Kind::File => 'f',
@@ -265,6 +314,18 @@ fn op_line(sc: &Scenario) -> String {
         if sc.empty { 'e' } else { '-' },
         sc.pre.len()
     );
+    if let Some(delay) = sc.filter {
+        // not an operation of the Lean model (filters are not modelled): `cof <flags> <threads> <missing,…|-> <npre> …`
+        s = format!(
+            "cof {}{}{} {} {} {}",
+            if sc.overwrite { 'o' } else { '-' },
+            if sc.empty { 'e' } else { '-' },
+            if delay { 'D' } else { '-' },
+            sc.threads,
+            if sc.missing.is_empty() { "-".to_string() } else { sc.missing.iter().map(|m| hex(m)).collect::<Vec<_>>().join(",") },
+            sc.pre.len()
+        );
+    }
     for (path, pre) in &sc.pre {
         let (k, d): (char, Vec<u8>) = match pre {
             Pre::Dir => ('d', vec![]),
@@ -280,7 +341,21 @@ fn op_line(sc: &Scenario) -> String {
 }
 
 fn parse_op(op: &str) -> Option<Scenario> {
-    let ws: Vec<&str> = op.split(' ').collect();
+    let mut ws: Vec<&str> = op.split(' ').collect();
+    let mut filter = None;
+    let mut missing = Vec::new();
+    let mut threads = 1;
+    if ws.len() >= 5 && ws[0] == "cof" {
+        filter = Some(ws[1].contains('D'));
+        threads = ws[2].parse().ok()?;
+        if ws[3] != "-" {
+            for m in ws[3].split(',') {
+                missing.push(unhex(m)?);
+            }
+        }
+        let flags = ws[1];
+        ws = [vec!["co", flags], ws[4..].to_vec()].concat();
+    }
     if ws.len() < 3 || ws[0] != "co" {
         return None;
     }
@@ -325,8 +400,10 @@ fn parse_op(op: &str) -> Option<Scenario> {
         pre,
         overwrite: fl.first() == Some(&'o'),
         empty: fl.get(1) == Some(&'e'),
-        threads: 1,
+        threads,
         simple: false,
+        filter,
+        missing,
     })
 }
 
@@ -547,6 +624,8 @@ fn gen_hostile(rng: &mut Rng) -> Scenario {
         empty: rng.chance(1, 2),
         threads: *rng.pick(&[1, 1, 2, 4, 8]),
         simple: false,
+        filter: None,
+        missing: vec![],
     }
 }
 
@@ -608,6 +687,57 @@ fn gen_simple(rng: &mut Rng) -> Scenario {
         empty: !with_pre && rng.chance(1, 2),
         threads: *rng.pick(&[1, 2, 4, 8]),
         simple: true,
+        filter: None,
+        missing: vec![],
+    }
+}
+
+const ATTRS: &[u8] = b"*.arw filter=arrow\n*.txt text eol=crlf\n*.bin -text\n";
+
+/// an index with .gitattributes: eol conversion and the long-running filter process `arrow` (which delays
+/// its answers when allowed to); optionally a nested .gitattributes, which may be missing from the object database
+fn gen_filter(rng: &mut Rng) -> Scenario {
+    let mut entries = vec![Entry { path: b".gitattributes".to_vec(), kind: Kind::File, data: ATTRS.to_vec() }];
+    let mut missing = Vec::new();
+    match rng.usize(3) {
+        0 => {}
+        1 => entries.push(Entry { path: b"sub/.gitattributes".to_vec(), kind: Kind::File, data: b"*.txt -text\n".to_vec() }),
+        _ => {
+            entries.push(Entry { path: b"sub/.gitattributes".to_vec(), kind: Kind::File, data: b"*.txt -text\n*.arw -filter\n".to_vec() });
+            missing.push(b"sub/.gitattributes".to_vec());
+        }
+    }
+    let dirs: &[&str] = &["", "", "sub/", "sub/deep/", "other/", "zz/"];
+    let exts: &[&str] = &["txt", "txt", "arw", "arw", "bin"];
+    let mut taken: BTreeSet<Vec<u8>> = BTreeSet::new();
+    let n = 4 + rng.usize(10);
+    for i in 0..n {
+        let path = format!("{}{}{}.{}", rng.pick(dirs), rng.pick(&["a", "m", "run", "z"]), i, rng.pick(exts)).into_bytes();
+        if !taken.insert(path.clone()) {
+            continue;
+        }
+        let lines = rng.usize(4);
+        let mut data = Vec::new();
+        for l in 0..lines {
+            data.extend_from_slice(format!("line{l}").as_bytes());
+            if l + 1 < lines || rng.chance(3, 4) {
+                data.extend_from_slice(if rng.chance(1, 8) { b"\r\n" } else { b"\n" });
+            }
+        }
+        entries.push(Entry { path, kind: if rng.chance(1, 3) { Kind::Exec } else { Kind::File }, data });
+    }
+    // something after every directory, so that leaving it matters
+    entries.push(Entry { path: b"zzz.txt".to_vec(), kind: Kind::File, data: b"last\n".to_vec() });
+    entries.push(Entry { path: b"zzy.arw".to_vec(), kind: Kind::Exec, data: b"last\n".to_vec() });
+    Scenario {
+        entries,
+        pre: git_pre(),
+        overwrite: rng.chance(1, 2),
+        empty: rng.chance(1, 2),
+        threads: *rng.pick(&[1, 1, 2, 4]),
+        simple: false,
+        filter: Some(rng.chance(2, 3)),
+        missing,
     }
 }
 
@@ -618,7 +748,7 @@ fn corpus() -> Vec<Scenario> {
         for (path, n) in extra_pre {
             add_pre(&mut pre, path, n);
         }
-        Scenario { entries, pre, overwrite, empty, threads: 1, simple: false }
+        Scenario { entries, pre, overwrite, empty, threads: 1, simple: false, filter: None, missing: vec![] }
     };
     vec![
         // the four escapes found while building this check (fixed in /repo)
@@ -768,6 +898,77 @@ fn judge_reproduces(rep: &mut Report, root: &Path, op: &str, sc: &Scenario, out:
     let _ = std::fs::remove_dir_all(&twin);
 }
 
+/// filters: what is written must be what git writes (content after eol conversion / the filter process, mode)
+fn judge_filter(rep: &mut Report, root: &Path, op: &str, sc: &Scenario, out: &RunOut) {
+    rep.oracle_checked();
+    let key = format!("filtered-differs threads={} {}", sc.threads, short(op));
+    if let Some(f) = &out.fatal {
+        rep.oracle_failure(&key, &format!("the checkout failed although keep_going is set: {f}"), op);
+        return;
+    }
+    // entries below a directory whose .gitattributes cannot be read fail, nothing else does
+    let dead_dirs: Vec<Vec<u8>> = sc
+        .missing
+        .iter()
+        .filter_map(|m| m.iter().rposition(|b| *b == b'/').map(|i| m[..=i].to_vec()))
+        .collect();
+    let below_dead = |path: &[u8]| dead_dirs.iter().any(|d| path.starts_with(d) || path == &d[..d.len() - 1]);
+    let want_errors: BTreeSet<Vec<u8>> = sc.entries.iter().filter(|e| below_dead(&e.path)).map(|e| e.path.clone()).collect();
+    let have_errors: BTreeSet<Vec<u8>> = out.errors.iter().cloned().collect();
+    if have_errors != want_errors || !out.collisions.is_empty() {
+        rep.oracle_failure(
+            &key,
+            &format!("errors {} (expected {}), collisions {}", paths_obs(&out.errors), paths_obs(&want_errors.iter().cloned().collect::<Vec<_>>()), paths_obs(&out.collisions)),
+            op,
+        );
+        return;
+    }
+    let twin = root.join("twin");
+    let _ = std::fs::remove_dir_all(&twin);
+    std::fs::create_dir_all(&twin).unwrap();
+    if !git(&twin, &["init", "-q", "."], None).ok {
+        return;
+    }
+    let process = format!("{} process", arrow_exe());
+    git(&twin, &["config", "filter.arrow.process", &process], None);
+    git(&twin, &["config", "filter.arrow.required", "true"], None);
+    let mut info: Vec<u8> = Vec::new();
+    for e in &sc.entries {
+        let data: &[u8] = if sc.missing.contains(&e.path) { b"" } else { &e.data };
+        let o = git(&twin, &["hash-object", "-w", "--stdin"], Some(data));
+        let oid = String::from_utf8_lossy(&o.stdout).trim().to_string();
+        let mode = if e.kind == Kind::Exec { "100755" } else { "100644" };
+        info.extend_from_slice(format!("{mode} {oid}\t").as_bytes());
+        info.extend_from_slice(&e.path);
+        info.push(0);
+    }
+    let o = git(&twin, &["update-index", "-z", "--index-info"], Some(&info));
+    let o2 = git(&twin, &["-c", "core.filemode=true", "checkout-index", "-a"], None);
+    rep.git_checked(1);
+    if !o.ok || !o2.ok {
+        rep.outside_domain(&format!("git twin failed: {} {}", String::from_utf8_lossy(&o.stderr), String::from_utf8_lossy(&o2.stderr)));
+        return;
+    }
+    let keep = |k: &[u8]| !(k == b".git" || k.starts_with(b".git/")) && !below_dead(k);
+    let git_tree: Snap = snapshot(root, &twin, false).into_iter().filter(|(k, _)| keep(k)).collect();
+    let ours: Snap = out.tree.iter().filter(|(k, _)| keep(k)).map(|(k, v)| (k.clone(), v.clone())).collect();
+    if git_tree != ours {
+        let mut d = Vec::new();
+        for (k, v) in &git_tree {
+            if ours.get(k) != Some(v) {
+                d.push(format!("{}: git {v}, gix {:?}", k.as_bstr(), ours.get(k)));
+            }
+        }
+        for k in ours.keys() {
+            if !git_tree.contains_key(k) {
+                d.push(format!("{}: only gix", k.as_bstr()));
+            }
+        }
+        rep.oracle_failure(&key, &format!("differs from git checkout-index: {}", d.join("; ")), op);
+    }
+    let _ = std::fs::remove_dir_all(&twin);
+}
+
 fn run_one(rep: &mut Report, root: &Path, sc: &Scenario, with_git: bool) {
     let op = op_line(sc);
     let sc2 = sc.clone();
@@ -797,7 +998,14 @@ fn run_one(rep: &mut Report, root: &Path, sc: &Scenario, with_git: bool) {
     if sc.entries.iter().any(|e| e.kind == Kind::Link) {
         rep.bucket("index:has-symlink");
     }
-    if sc.threads == 1 || sc.simple {
+    if sc.filter.is_some() {
+        rep.bucket(if sc.filter == Some(true) { "filters:delay-allowed" } else { "filters:no-delay" });
+        if !sc.missing.is_empty() {
+            rep.bucket("filters:nested-gitattributes-missing");
+        }
+        rep.oracle_only(&op, true);
+        judge_filter(rep, root, &op, sc, &out);
+    } else if sc.threads == 1 || sc.simple {
         rep.case(&op, &obs, true);
     } else {
         rep.oracle_only(&op, true);
@@ -810,6 +1018,7 @@ fn run_one(rep: &mut Report, root: &Path, sc: &Scenario, with_git: bool) {
 
 fn main() {
     let args = Args::parse();
+    let start_dir = std::env::current_dir().expect("cwd");
     let mut rep = Report::new("C41", &args);
     let mut rng = Rng::new(args.seed);
     let scratch = Scratch::new("c41");
@@ -818,6 +1027,10 @@ fn main() {
     if let Some(ops) = replay_ops(&args) {
         for op in ops {
             if let Some(sc) = parse_op(&op) {
+                if sc.filter.is_some() {
+                    run_one(&mut rep, &root, &sc, false);
+                    continue;
+                }
                 for threads in [1usize, 4] {
                     let mut sc = sc.clone();
                     sc.threads = threads;
@@ -825,6 +1038,7 @@ fn main() {
                 }
             }
         }
+        let _ = std::env::set_current_dir(&start_dir);
         rep.finish();
         return;
     }
@@ -846,5 +1060,10 @@ fn main() {
             run_one(&mut rep, &root, &sc, false);
         }
     }
+    for _ in 0..args.budget(24, 400) {
+        let sc = gen_filter(&mut rng);
+        run_one(&mut rep, &root, &sc, false);
+    }
+    let _ = std::env::set_current_dir(&start_dir);
     rep.finish();
 }
